@@ -287,17 +287,32 @@ func cutPoints(n int) []int {
 }
 
 func TestCheck(t *testing.T) {
+	if sc := explore.WorkerScenario(); sc != "" {
+		raceWorker(t, sc)
+		return
+	}
 	c := report.Begin("C18", "model_checking")
 	c.Rule = "states = (model content, physical layout) of the source shard reached by BFS; in every state the shard is backed up and restored into a fresh store and every read of the copy and of the source is compared with the model; for shallow states the stream is cut at every tar boundary (+-1, mid-block), as a reset and as a clean close; distinct = states + outcome classes"
 	c.Assumptions = []string{
 		"copy = Store.BackupShard -> CreateShard + Store.RestoreShard, the calls coordinator.Service makes for a shard copy (the network hop and the metadata update are not part of this check)",
 		"time-bounded backups: Store.ExportShard over every [start,end] of 0..6 restored offline and online; oracle: source points inside the range are in the copy, the copy holds only source points (whole blocks may exceed the range); incremental (since) backups are not enumerated",
+		"backup racing writes: BackupShard x two sequential acknowledged writes under the controlled scheduler (sync operations of the tsdb packages are scheduling points, delay-bounded; sync/atomic and channel operations are not)",
 	}
 	alphabet := ops()
 	if *replayFile != "" {
 		rp, err := report.LoadReplay(*replayFile)
 		if err != nil {
 			t.Fatal(err)
+		}
+		if rp.Config["part"] == "race" {
+			if sc, ok := findRace(rp.Config["scenario"]); ok {
+				out, tp := explore.Replay(rp.Tape, raceBody(t, sc))
+				fmt.Printf("replay %s\n%d choices\noutcome: %+v\n", sc.name, len(tp.Choices), out)
+				if out.Violation != "" {
+					report.ExitCode = 1
+				}
+			}
+			return
 		}
 		r := run(t, alphabet, rp.Seq, "inmem", rp.Config["cuts"] == "true", rp.Config["exports"] == "true")
 		fmt.Printf("replay %v: violation=%q sig=%q soft=%q\n%s\n", rp.Seq, r.Violation, r.Sig, r.SoftViolation, r.Detail)
@@ -318,6 +333,7 @@ func TestCheck(t *testing.T) {
 	r3 := explore.BFS(explore.BFSConfig{Ops: len(alphabet), Depth: edepth, Workers: 16, OpName: func(i int) string { return alphabet[i].name }},
 		func(seq []int) explore.StepResult { return run(t, alphabet, seq, "inmem", false, true) })
 	c.AddBFS("time-bounded backup of every range in every source state", r3, map[string]any{"exports": true})
+	racePart(t, c)
 	for _, index := range []string{"inmem", "tsi1"} {
 		v, s, n := wideShard(index, 10050)
 		c.AddCount("wide shard ("+index+" source)", int64(n), map[string]bool{"wide-copy-paths": true}, true, nil)
